@@ -115,6 +115,9 @@ pub struct Exec<'a> {
 	/// Keys written by transactions that were committed while dereferencing a held tree: the
 	/// whole transaction is postponed behind later ones (known C11 finding).
 	pub deferral_victims: std::collections::HashSet<(u8, usize)>,
+	/// A commit submitted after a postponed one names a key (or reuses nodes of a tree) the
+	/// postponed one writes: the database applies the two in the other order than the model.
+	pub victim_dependency: bool,
 	pub victim_ctx: bool,
 	/// Tree columns for which a crash lost a commit that had claimed value-table slots.
 	pub claimed_leak: std::collections::HashSet<u8>,
@@ -241,6 +244,7 @@ impl<'a> Exec<'a> {
 			track_records: cfg.scenario == "logfuzz",
 			locks_used: false,
 			deferral_victims: Default::default(),
+			victim_dependency: false,
 			victim_ctx: false,
 			claimed_leak: Default::default(),
 			claim_ctx: false,
@@ -268,7 +272,7 @@ impl<'a> Exec<'a> {
 	}
 
 	fn violation(&mut self, prop: &str, class: &str, detail: String) {
-		let (prop, class) = if (self.victim_ctx || self.deferral_happened) && !class.starts_with("locked-tree") {
+		let (prop, class) = if (self.victim_ctx || self.deferral_happened) && (!class.starts_with("locked-tree") || self.victim_dependency) {
 			("C11", format!("after-deferral:{class}"))
 		} else if self.claim_ctx {
 			("C14", format!("claimed-slots-leaked-by-crash:{class}"))
@@ -1042,8 +1046,9 @@ impl<'a> Exec<'a> {
 		loop {
 			guard += 1;
 			if guard > 4000 {
+				// never reached on the unchanged tree; whatever it is, this is not a drained point
 				self.violation("C15", "drain-stuck", "pipeline did not drain in 4000 stage steps".into());
-				break
+				return
 			}
 			let c = self.counts();
 			if c.0 > 0 && !deferred_only {
@@ -1069,6 +1074,15 @@ impl<'a> Exec<'a> {
 			let _ = self.run_stage(Stage::Flush);
 			if self.counts().3 >= self.max_dirty() {
 				self.step(Stage::Clean);
+				if self.counts().3 >= self.max_dirty() && !crate::treeops::any_locked(self) {
+					// Without `sync_data` reclamation keeps 16 consumed logs, and the next applied
+					// file would make the caller wait for a cleanup worker that does not exist in
+					// stage mode: get past it the way a client can, by a clean restart (which
+					// applies what it can and leaves the rest to replay).
+					self.stats.probe("drain_by_restart_at_dirty_limit");
+					self.restart();
+					return
+				}
 			}
 			let enacted = matches!(self.run_stage(Stage::EnactAll), Ok(true));
 			let c = self.counts();
@@ -1686,6 +1700,31 @@ impl<'a> Exec<'a> {
 			TxOp::DerefTree(k) => self.tree_rt.get(*c as usize).map_or(false, |r| r.locks.contains_key(k)),
 			_ => false,
 		});
+		if !self.deferral_victims.is_empty() {
+			fn roots(s: &TreeSpec, out: &mut Vec<usize>) {
+				for c in &s.children {
+					match c {
+						ChildSpec::New(n) => roots(n, out),
+						ChildSpec::Existing { root, .. } => out.push(*root),
+					}
+				}
+			}
+			for (c, op) in tx {
+				let mut named: Vec<usize> = Vec::new();
+				match op {
+					TxOp::Set(k, _) | TxOp::Del(k) | TxOp::Ref(k) | TxOp::RefTree(k) | TxOp::DerefTree(k) => named.push(*k),
+					TxOp::InsertTree(k, spec) => {
+						named.push(*k);
+						roots(spec, &mut named);
+					},
+					_ => {},
+				}
+				if named.iter().any(|k| self.deferral_victims.contains(&(*c, *k))) {
+					self.victim_dependency = true;
+					self.stats.probe("commit_depends_on_postponed_commit");
+				}
+			}
+		}
 		if defers {
 			// keys written by a transaction that will be postponed behind later ones
 			for (c, op) in tx {
